@@ -43,14 +43,13 @@ def main(argv=None):
     violations = []
     # 1. translator front end, built against /repo's working tree
     builds = {}
-    for fs in fss:
-        exe, err, bs = E.cargo_build("hx_consts", fs=fs)
-        builds[fs] = bs
-        if exe is not None:
-            exe, err, bs2 = E.cargo_build("hx_consts", fs=fs, extra_features=("unified_ref",))
-            builds[fs + "+unified_ref"] = bs2
+    variants = [(fs, extra) for fs in fss for extra in ((), ("unified_ref",))]
+    with ThreadPoolExecutor(len(variants)) as ex:      # independent target dirs: build them side by side
+        built = list(ex.map(lambda v: E.cargo_build("hx_consts", fs=v[0], extra_features=v[1]), variants))
+    for (fs, extra), (exe, err, bs) in zip(variants, built):
+        builds[fs + ("+unified_ref" if extra else "")] = bs
         if exe is None:
-            violations.append(Violation("harness-build-failed", f"hx_consts no longer builds ({fs}): {err[-1200:]}",
+            violations.append(Violation("harness-build-failed", f"hx_consts no longer builds ({fs} {extra}): {err[-1200:]}",
                                         found_input=False, broken="translator build"))
             return E.finish("C24", a.tier, a.seed, t0, {"obligations": len(THEOREMS), "discharged": 0}, {}, violations)
     dumps, panics = {}, []
